@@ -638,11 +638,20 @@ def gen_frames(rng):
         e = "e%d" % rng.randrange(nE)
         t = rng.choice(["dsp:%s" % e, "erem:%s:%d" % (e, rng.randrange(NTY)), "bc:0", "dsp:%s erem:%s:0" % (e, e)])
         setup.append("on %s %d %s" % (rng.choice("pcr"), rng.randrange(g.ndefs), t)); nS += 1
+    watched = None
+    if rng.random() < 0.6:
+        # an entity watched by a despawn (and a removal) reactor that will die through its last signal, outside any tree
+        watched = "e%d" % rng.randrange(nE)
+        setup.append("on %s %d dsp:%s" % (rng.choice("ppc"), rng.randrange(g.ndefs), watched)); nS += 1
     out.append("top acts %d" % len(setup)); out += setup
     nsig = 0
     for _ in range(rng.randint(3, 9)):
         x = rng.random(); e = "e%d" % rng.randrange(nE)
-        if x < 0.25: out.append("top update")
+        if watched and x < 0.12:
+            out += ["top sigprepare %s" % watched, "top sigdrop a%d" % nsig, "top update"]; nsig += 1
+            if rng.random() < 0.5: out.append("top acts 1"); out.append("broadcast 0 %d" % g.newpid())
+            watched = None
+        elif x < 0.25: out.append("top update")
         elif x < 0.35: out.append("top sigprepare %s" % e); nsig += 1
         elif x < 0.45 and nsig: out.append("top sigdrop a%d" % rng.randrange(nsig))
         elif x < 0.5 and nsig: out.append("top sigclone a%d" % rng.randrange(nsig))
